@@ -458,7 +458,9 @@ class GenericWriter(ABC):
     def __init__(self, schema, metadata=None, validator=None, options={}):
         self._named_schemas = {}
         self.validate_fn = _validate if validator else None
-        self.metadata = metadata or {}
+        # the header metadata gets avro.schema / avro.codec added below: work on a
+        # copy so that the dictionary handed in by the caller is left as it was
+        self.metadata = dict(metadata) if metadata else {}
         self.options = options
 
         # A schema of None is allowed when appending and when doing so the
